@@ -147,16 +147,21 @@ type c17state struct {
 func (c17) Begin(x *Exec)      { x.state = &c17state{methods: map[string]bool{}} }
 func (c17) AfterSetup(x *Exec) { x.state.(*c17state).dumps = x.w.snapshot() }
 
-// zeroish: is x the zero value of its type, or an error?
-func zeroish(x any) bool {
+// zeroish: is x the zero value of its type - or, for the methods the
+// statement names (Valid, IsEqual), an error?
+func zeroish(x any, errOK bool) bool {
 	if x == nil {
 		return true
 	}
 	if _, ok := x.(error); ok {
-		return true
+		return errOK
 	}
 	return reflect.ValueOf(x).IsZero()
 }
+
+// The statement allows "an error from Valid/IsEqual" on a dead receiver;
+// every other method must return its zero result, a nil error included.
+var deadErrorOK = map[string]bool{"Valid": true, "IsEqual": true}
 
 // Results that are allowed to be a fixed non-zero sentinel on a dead
 // receiver: the deadness predicates themselves and the negated-flag /
@@ -262,8 +267,8 @@ func (c17) AfterOp(x *Exec, task, idx int, op Op, out Outcome) {
 		}
 		if !deadSentinelOK[op.M] {
 			for i, raw := range out.Raw {
-				if !zeroish(raw) {
-					x.fail("nonzero-result:"+op.M, fmt.Sprintf("%s on a dead receiver returned %s (result %d is neither zero nor an error)", op, out, i))
+				if !zeroish(raw, deadErrorOK[op.M]) {
+					x.fail("nonzero-result:"+op.M, fmt.Sprintf("%s on a dead receiver returned %s (result %d is not the zero result; an error is accepted from Valid and IsEqual only)", op, out, i))
 					return
 				}
 			}
